@@ -98,6 +98,11 @@ type (
 	route struct {
 		code int
 		path *MuxPath
+
+		// ipFilters are the IP filters which were consulted on the way to
+		// this result (server, visited rules, path); a cached result is
+		// only valid for the clients that pass all of them.
+		ipFilters []*ipfilter.IPFilter
 	}
 
 	// routeCacheKey is the key of the route cache. The three parts are kept
@@ -548,21 +553,27 @@ func (mi *muxInstance) search(req *httpprot.Request) *route {
 	// headers.
 	r := mi.getRouteFromCache(req)
 	if r != nil {
-		if r.code != 0 {
-			return r
+		for _, f := range r.ipFilters {
+			if !f.Allow(ip) {
+				return forbidden
+			}
 		}
-		if r.path.ipFilterChain == nil {
-			return r
+		return r
+	}
+
+	// The IP filters consulted so far; they are kept with a cached result.
+	var ipFilters []*ipfilter.IPFilter
+	consulted := func(f *ipfilter.IPFilter) []*ipfilter.IPFilter {
+		if f == nil {
+			return ipFilters
 		}
-		if r.path.ipFilterChain.Allow(ip) {
-			return r
-		}
-		return forbidden
+		return append(ipFilters[:len(ipFilters):len(ipFilters)], f)
 	}
 
 	if !allowIP(mi.ipFilter, ip) {
 		return forbidden
 	}
+	ipFilters = consulted(mi.ipFilter)
 
 	for _, host := range mi.rules {
 		if !host.match(req) {
@@ -572,6 +583,7 @@ func (mi *muxInstance) search(req *httpprot.Request) *route {
 		if !allowIP(host.ipFilter, ip) {
 			return forbidden
 		}
+		ipFilters = consulted(host.ipFilter)
 
 		for _, path := range host.paths {
 			if !path.matchPath(req) {
@@ -589,7 +601,7 @@ func (mi *muxInstance) search(req *httpprot.Request) *route {
 			// of the cache does not contain the headers.
 			if len(path.headers) == 0 {
 				if !headerMismatch {
-					r = &route{code: 0, path: path}
+					r = &route{code: 0, path: path, ipFilters: consulted(path.ipFilter)}
 					mi.putRouteToCache(req, r)
 				}
 			} else if !path.matchHeaders(req) {
@@ -610,11 +622,11 @@ func (mi *muxInstance) search(req *httpprot.Request) *route {
 	}
 
 	if methodMismatch {
-		mi.putRouteToCache(req, methodNotAllowed)
+		mi.putRouteToCache(req, &route{code: http.StatusMethodNotAllowed, ipFilters: ipFilters})
 		return methodNotAllowed
 	}
 
-	mi.putRouteToCache(req, notFound)
+	mi.putRouteToCache(req, &route{code: http.StatusNotFound, ipFilters: ipFilters})
 	return notFound
 }
 
